@@ -345,6 +345,14 @@ def av_rules(m, lf, run, which, key, body, static_off, vtrak, atrak, moov):
             lead = _leading_key_field(kexpr, items.get(q))
             mono = m.mono[q][0]
             good = lead is not None and (lead[0] == "idx" or (lead[0] == "field" and lead[1] in mono))
+            if good and lead[0] != "idx":
+                # the writers enforce `<=` for audio: entries of one track with equal leading keys keep their queue order only if the sort is
+                # stable or the key also contains the element's index
+                stable = len(kexpr) > 3 and kexpr[3] in ("sort_by_key", "sort_by", "sort")
+                has_idx = _key_has_index(kexpr, items.get(q))
+                run.check(stable or has_idx, "R4", "%s %s ties keep queue order" % (key, kind), "equal timestamps within the track stay in queue order (%s)" % ("key contains the index" if has_idx else "stable sort"),
+                          "the schedule is sorted with `%s` on a key without the sample index: two %s samples with equal timestamps (legal: the writer enforces only non-decreasing time) may be stored in swapped order, "
+                          "while stsz/stco pair the k-th size with the k-th stored chunk - the k-th sample then resolves to another sample's bytes" % (kexpr[3] if len(kexpr) > 3 else "?", kind))
             run.check(good, "R4", "%s %s order==queue-order" % (key, kind),
                       "schedule key leads with %s, which the %s writer keeps monotone (%s)" % (lead, kind, mono),
                       "stco entries of the %s track are in schedule order, whose leading key field is `%s`, but the writer only enforces monotonicity of %s: "
@@ -382,6 +390,18 @@ def _items_by_base(over):
                     out[b] = (s[1], s[2], s[3][0][1])
     rec(over)
     return out
+
+
+def _key_has_index(kexpr, item):
+    if item is None or kexpr[0] != "key":
+        return False
+    base, lid, tup = item
+    k = kexpr[2]
+    comps = k[1] if k[0] == "tuple" else [k]
+    for c in comps:
+        if c[0] == "tfield" and c[1][0] == "keyelem" and tup[0] == "tuple" and c[2] < len(tup[1]) and tup[1][c[2]][0] == "idx":
+            return True
+    return False
 
 
 def _leading_key_field(kexpr, item):
